@@ -36,12 +36,15 @@ Depth2 == {Slice(Array2(B("uint8"))), Array2(Slice(B("uint8"))), Ptr(Array2(B("u
            Slice(S("bytes")), Slice(Anon), Ptr(S("time")), Slice(S("time")), MapS(S("iface"))}
 FieldTypes == Depth1 \cup Depth2
 
-TagOptions == {"plain", "rename", "omitempty", "string", "dash", "notag", "unexported", "ignore", "rename_omitempty"}
+\* noname_*: the name part of the tag is empty (`json:",omitempty"`): the Go field name is the JSON name
+TagOptions == {"plain", "rename", "omitempty", "string", "dash", "notag", "unexported", "ignore", "rename_omitempty",
+               "noname_omitempty", "noname_string", "noname_both"}
 \* ",string" applies to scalars only (encoding/json ignores it elsewhere; the scanner must too)
 Fields == {[ty |-> t, tag |-> "plain"] : t \in FieldTypes}
           \cup {[ty |-> t, tag |-> o] : t \in {B("int"), B("string"), B("bool"), B("float64"), B("uint8"), Ptr(B("int")), Slice(B("string")),
                                                MapS(B("int")), S("time"), S("named_struct"), S("bytes"), Anon}, o \in TagOptions}
-          \cup {[ty |-> B(n), tag |-> "string"] : n \in Basics}
+          \cup {[ty |-> B(n), tag |-> o] : n \in Basics, o \in {"string", "noname_string", "noname_omitempty"}}
+          \cup {[ty |-> t, tag |-> "noname_omitempty"] : t \in {Slice(B("string")), MapS(B("int")), S("named_struct"), Ptr(S("named_struct")), Slice(S("named_struct")), Array2(B("int"))}}
           \cup {[ty |-> Ptr(B(n)), tag |-> "string"] : n \in {"int64", "bool", "float32", "string"}}
 
 \* structural variants of a model: plain struct, with an embedded struct (promoted fields), with an
